@@ -83,7 +83,7 @@ impl Frame {
 //@ ret res
 //@ spec
         ensures strs(res.targets@) == strs(rule.targets@), strs(res.sources@) == strs(rule.sources@), strs(res.command@) == strs(rule.command@),
-            res.rule_ticket.bytes() == sha256(utf8(ident_input(strs(rule.targets@), strs(rule.sources@), strs(rule.command@)))),     //# O-S-frame-identity [C12,C01]
+            res.rule_ticket.bytes() == sha256(utf8(ident_input(strs(rule.targets@), strs(rule.sources@), strs(rule.command@)))),     //# O-S-frame-identity [C12,C01,C13]
             res.index == index, res.sub_index == 0, !res.visited,
 //@ end
 
@@ -132,7 +132,7 @@ spec fn index_ok(m: Map<String, (usize, usize)>, tab: Seq<RuleSpec>, k: int) -> 
     requires rules@.len() <= usize::MAX,     // (a Vec's length fits usize; stated because vstd does not expose it at spec level)
     ensures
         // accepted exactly when no path is a target twice (of two rules or of one); then the frame table is the sorted rule list
-        // and the index map sends every target path to its (rule, position)                                                     //# O-S-table [C12]
+        // and the index map sends every target path to its (rule, position)                                                     //# O-S-table [C12,C13]
         res matches Ok((fb, m)) ==> ({
             let tab = sort_rules_spec(rules_view(rules@));
             &&& fb@.len() == tab.len()
